@@ -109,6 +109,10 @@ func NewSession(id uint16, clientMAC, serverMAC net.HardwareAddr) (*Session, err
 		return nil, fmt.Errorf("failed to generate session ID: %w", err)
 	}
 
+	// The caller's slices may alias a receive buffer that is reused for the next frame
+	clientMAC = append(net.HardwareAddr(nil), clientMAC...)
+	serverMAC = append(net.HardwareAddr(nil), serverMAC...)
+
 	return &Session{
 		ID:           id,
 		ClientMAC:    clientMAC,
